@@ -139,7 +139,7 @@ class Spec(PropSpec):
     theorems = ["send_buf_le_cap", "recv_buf_le_cap", "payload_le_mss", "inflight_le_wnd",
                 "inflight_only_shrinks_on_ack", "write_blocks_iff_full", "udp_oversize_rejected",
                 "c16_world_hosts_reachable", "c16_nonvacuous",
-                "tcb_on_seg_wrap", "seg_step_wrap", "transmittable_wrap", "wrap_tight", "c16_wrap_nonvacuous"]
+                "tcb_on_seg_wrap", "tcb_on_conn_wrap", "fresh_tcb_wrap", "seg_step_wrap", "transmittable_wrap", "wrap_tight", "c16_wrap_nonvacuous"]
     consts = F.NET_CONSTS
     anchors = F.NET_ANCHORS
     harness_bins = ["nettcp"]
@@ -155,7 +155,7 @@ class Spec(PropSpec):
             "every packet (flags, seq, ack, window, payload), every op result, netstat, table counts. Non-trivial = a write "
             "blocked or was cut at the cap, a segment of exactly MSS bytes left, or a UDP send was rejected; distinct = distinct (cfg, script)")
     assumptions = [
-        "sequence numbers: the theorems are stated on unbounded naturals (side condition: every live sequence distance - in flight, window, send/receive buffer - stays below 2^31; that the code's wrapping_sub/wrapping_add/== then agree with them is PROVED for handle_established, segment_one and segment_all's filter by tcb_on_seg_wrap, seg_step_wrap, transmittable_wrap (coq/NetTcp/Wrap.v, WrapTcb.v, checked with C16; tight: wrap_tight), the remaining sites - handshake equalities, probe sequence - by the site lemmas of Wrap.v; caps and windows are at most 65535/70000); the model's wire encoding is mod 2^32 and the deterministic `wrap` family of C06 (ISN = 2^32-k on both hosts via verif hook 71a27bd, k in {1,100,1460,5000}, both roles, both directions, with and without loss) checks model/implementation correspondence and the byte-stream oracle across the wrap",
+        "sequence numbers: the theorems are stated on unbounded naturals (side condition: every live sequence distance - in flight, window, send/receive buffer - stays below 2^31; that the code's wrapping_sub/wrapping_add/== then agree with them is PROVED for the whole inbound per-connection handler (handshake states + handle_established), the TCB literals of connect / accept_syn, segment_one and segment_all's filter by tcb_on_conn_wrap, tcb_on_seg_wrap, fresh_tcb_wrap, seg_step_wrap, transmittable_wrap (coq/NetTcp/Wrap.v, WrapTcb.v, checked with C16; tight: wrap_tight), the remaining sites - handshake equalities, probe sequence - by the site lemmas of Wrap.v; caps and windows are at most 65535/70000); the model's wire encoding is mod 2^32 and the deterministic `wrap` family of C06 (ISN = 2^32-k on both hosts via verif hook 71a27bd, k in {1,100,1460,5000}, both roles, both directions, with and without loss) checks model/implementation correspondence and the byte-stream oracle across the wrap",
         "`kreach` quantifies over every syscall sequence with arbitrary arguments and every inbound packet sequence (adversarial network), for every KernelConfig",
         "inflight_le_wnd is stated for the moment right after an emission (a later ACK may shrink the window; an ACK never increases the amount in flight)",
         "the first window a client sees is DEFAULT_WINDOW (65535) from the SYN-ACK regardless of the server's recv_buf_cap; the receiver truncates at its cap",
